@@ -59,7 +59,7 @@ theorem not_ev_at {E : Ev} (hE : E.ok h) {n : Nat} {a b : Sys} (ha : h[n]? = som
   · rw [hoth w hw, hwa] at hwb; cases hwb; exact Nat.le_refl _
 
 /-- a node that acknowledged an event has reached the event's term -/
-theorem acked_term (H : Hyp2 cfg c0 h) {n : Nat} {a : Sys} (ha : h[n]? = some a) {E : Ev}
+theorem acked_term (H : Hyp2w cfg c0 h) {n : Nat} {a : Sys} (ha : h[n]? = some a) {E : Ev}
     (hE : E.ok h) {v : Nat} {st : NState} (hv : a.node v = some st) (hk : AckedMem a n E v st) :
     E.t ≤ st.raft.term := by
   obtain ⟨_, _, hc0⟩ := Ev.leaderLog H hE
@@ -80,7 +80,7 @@ theorem acked_term (H : Hyp2 cfg c0 h) {n : Nat} {a : Sys} (ha : h[n]? = some a)
 /-- **the sender of an accepted batch agrees with a log that holds the committed entry**: wherever the
 sender's log (a leader's log of the event's term or a later one) holds an entry up to the committed
 index, the node's log holds the same entry -/
-theorem compat_has (H : Hyp2 cfg c0 h) {n : Nat} (S : SAll h c0 n) {a : Sys} (ha : h[n]? = some a)
+theorem compat_has (H : Hyp2w cfg c0 h) {n : Nat} (S : SAll h c0 n) {a : Sys} (ha : h[n]? = some a)
     {v : Nat} {st : NState} (hv : a.node v = some st) {E : Ev} (hE : E.ok h)
     (hh : Has (FL h c0 st) E.c E.t) {τ : Nat} {L : LLog} (hL : LeaderLog h c0 n τ L)
     (hle : E.t ≤ τ) :
@@ -114,7 +114,7 @@ theorem acked_back {n : Nat} {a b : Sys} {E : Ev} {v : Nat} {st st' : NState}
   · exact .inr ⟨h1, by omega, h3⟩
 
 /-- the snapshot of a `MsgSnapshot` of the transport carries a real term -/
-theorem SnapSrc.snapt_ne {n : Nat} {m : Message} {L : LLog} (H : Hyp2 cfg c0 h)
+theorem SnapSrc.snapt_ne {n : Nat} {m : Message} {L : LLog} (H : Hyp2w cfg c0 h)
     (src : SnapSrc h c0 n m L) : m.snapshot.metadata.term ≠ 0 := by
   obtain ⟨e, he, het⟩ := src.has
   obtain ⟨m0, s0, l0, stl, _, a2, a3, _, _, rfl⟩ := src.ll
@@ -125,13 +125,13 @@ theorem SnapSrc.snapt_ne {n : Nat} {m : Message} {L : LLog} (H : Hyp2 cfg c0 h)
 
 /-- **the ghost log of a node that restored the snapshot of `m`** equals the sender's up to the
 snapshot index, and ends there -/
-theorem restored_src (H : Hyp3 cfg c0 h) {n : Nat} (S : SAll h c0 n) {a b : Sys} (ha : h[n]? = some a)
+theorem restored_src (H : Hyp3a cfg c0 h) {n : Nat} (S : SAll h c0 n) {a b : Sys} (ha : h[n]? = some a)
     (hb : h[n + 1]? = some b) {v : Nat} {st' : NState} (hkb : b.node v = some st') {m : Message}
     (hm : m ∈ a.net) (hty : m.msgType = .msgSnapshot)
     (hl : st'.raft.raftLog.abs = LLog.ofSnapshot m.snapshot) :
     ∃ L, SnapSrc h c0 n m L ∧ EqUpTo (FL h c0 st') L m.snapshot.metadata.index ∧
       st'.raft.raftLog.abs.lastIndex = m.snapshot.metadata.index := by
-  have H2 := H.toHyp2
+  have H2 := H.toHyp2w
   obtain ⟨L, src⟩ := snap_src H S ha hm hty
   have Ib := (ghost_inv H2 (n + 1) b hb).node v st' hkb
   obtain ⟨e, he, het⟩ := Ib.log.sT m.snapshot.metadata.term (by rw [hl]; rfl)
@@ -148,12 +148,12 @@ theorem restored_src (H : Hyp3 cfg c0 h) {n : Nat} (S : SAll h c0 n) {a b : Sys}
 
 /-- **a node whose ghost log holds the snapshot's last entry does not restore the snapshot**: its log
 matches `(index, term)` -/
-theorem restore_nodrop (H : Hyp3 cfg c0 h) {n : Nat} {a : Sys} (ha : h[n]? = some a) {v : Nat}
+theorem restore_nodrop (H : Hyp3a cfg c0 h) {n : Nat} {a : Sys} (ha : h[n]? = some a) {v : Nat}
     {stk : NState} (hka : a.node v = some stk)
     (hpn : stk.raft.raftLog.unstable.snapshot = none) {i t : Nat} (hi0 : c0 < i)
     (hci : stk.raft.raftLog.committed ≤ i) (hh : Has (FL h c0 stk) i t) :
     stk.raft.raftLog.matchTerm i t = .ok true := by
-  have H2 := H.toHyp2
+  have H2 := H.toHyp2w
   have I := (ghost_inv H2 n a ha).node v stk hka
   have o := node_ok H2 ha hka
   obtain ⟨e, he, het⟩ := hh
@@ -181,12 +181,12 @@ theorem restore_nodrop (H : Hyp3 cfg c0 h) {n : Nat} {a : Sys} (ha : h[n]? = som
 
 /-- **a node that fast-forwarded its commit index to the snapshot of `m`** holds the sender's log up to
 the snapshot index -/
-theorem ffwd_src (H : Hyp3 cfg c0 h) {n : Nat} (S : SAll h c0 n) {a : Sys} (ha : h[n]? = some a)
+theorem ffwd_src (H : Hyp3a cfg c0 h) {n : Nat} (S : SAll h c0 n) {a : Sys} (ha : h[n]? = some a)
     {v : Nat} {stk : NState} (hka : a.node v = some stk) {m : Message}
     (hm : m ∈ a.net) (hty : m.msgType = .msgSnapshot)
     (hmt : stk.raft.raftLog.matchTerm m.snapshot.metadata.index m.snapshot.metadata.term = .ok true) :
     ∃ L, SnapSrc h c0 n m L ∧ EqUpTo (FL h c0 stk) L m.snapshot.metadata.index := by
-  have H2 := H.toHyp2
+  have H2 := H.toHyp2w
   obtain ⟨L, src⟩ := snap_src H S ha hm hty
   have I := (ghost_inv H2 n a ha).node v stk hka
   have o := node_ok H2 ha hka
@@ -197,7 +197,7 @@ theorem ffwd_src (H : Hyp3 cfg c0 h) {n : Nat} (S : SAll h c0 n) {a : Sys} (ha :
 
 /-- a node whose commit index reaches `E.c`, at a moment when the event's term has been led, holds the
 committed entry -/
-theorem commit_has (H : Hyp2 cfg c0 h) {n : Nat} (S : SAll h c0 n) {a : Sys} (ha : h[n]? = some a)
+theorem commit_has (H : Hyp2w cfg c0 h) {n : Nat} (S : SAll h c0 n) {a : Sys} (ha : h[n]? = some a)
     {v : Nat} {stk : NState} (hka : a.node v = some stk) {E : Ev} (hE : E.ok h)
     (hc : E.c ≤ stk.raft.raftLog.committed) {L : LLog} (hL : LeaderLog h c0 n E.t L) :
     Has (FL h c0 stk) E.c E.t := by
@@ -207,12 +207,12 @@ theorem commit_has (H : Hyp2 cfg c0 h) {n : Nat} (S : SAll h c0 n) {a : Sys} (ha
   · have := ctf H S hE0 hE hp0 (by omega) (fun _ => ⟨L, hL⟩)
     exact hq0.has hc this
 
-theorem retm_step (H : Hyp3 cfg c0 h) {n : Nat} (S : SAll h c0 n) {a b : Sys}
+theorem retm_step (H : Hyp3a cfg c0 h) {n : Nat} (S : SAll h c0 n) {a b : Sys}
     (ha : h[n]? = some a) (hb : h[n + 1]? = some b) :
     ∀ E : Ev, E.ok h → ∀ v st', b.node v = some st' → AckedMem b (n + 1) E v st' →
       Has (FL h c0 st') E.c E.t := by
   intro E hE v st' hvb hk
-  have H2 := H.toHyp2
+  have H2 := H.toHyp2w
   have Sa := S n a (Nat.le_refl _) ha
   obtain ⟨hEl, hEh, hc0⟩ := Ev.leaderLog H2 hE
   obtain ⟨k, stk, stk', hka, hkb, hoth, hs⟩ := H2.stp ha hb
@@ -410,20 +410,20 @@ theorem retm_step (H : Hyp3 cfg c0 h) {n : Nat} (S : SAll h c0 n) {a b : Sys}
 
 
 /-- the snapshot point of a leader's log -/
-theorem LeaderLog.snap (H : Hyp2 cfg c0 h) {N t : Nat} {L : LLog} (hL : LeaderLog h c0 N t L) :
+theorem LeaderLog.snap (H : Hyp2w cfg c0 h) {N t : Nat} {L : LLog} (hL : LeaderLog h c0 N t L) :
     L.snapIdx = c0 := by
   obtain ⟨m, s, l, st, _, a2, a3, _, _, rfl⟩ := hL
   exact ((ghost_inv H m s a2).node l st a3).log.snap
 
 /-- two leaders' logs that hold the same entry at `c` are equal up to `c` -/
-theorem ll_eq_below (H : Hyp2 cfg c0 h) {N N' t t' : Nat} {L L' : LLog} (h1 : LeaderLog h c0 N t L)
+theorem ll_eq_below (H : Hyp2w cfg c0 h) {N N' t t' : Nat} {L L' : LLog} (h1 : LeaderLog h c0 N t L)
     (h2 : LeaderLog h c0 N' t' L') {c τ : Nat} (hh : Has L c τ) (hh' : Has L' c τ) :
     EqUpTo L L' c := by
   obtain ⟨m, s, l, st, _, a2, a3, _, _, rfl⟩ := h1
   exact eq_ll H a2 a3 h2 hh hh'
 
 /-- the promise of an acknowledgement of the commit index -/
-theorem commit_promise (H : Hyp2 cfg c0 h) {n : Nat} (S : SAll h c0 n) {a : Sys}
+theorem commit_promise (H : Hyp2w cfg c0 h) {n : Nat} (S : SAll h c0 n) {a : Sys}
     (ha : h[n]? = some a) {v : Nat} {stk : NState} (hka : a.node v = some stk) {x : Message}
     (hxi : x.index = stk.raft.raftLog.committed) (hidx : c0 < x.index)
     (hle : stk.raft.term ≤ x.term) {L : LLog} (hL : LeaderLog h c0 n x.term L) :
@@ -450,7 +450,7 @@ theorem commit_promise (H : Hyp2 cfg c0 h) {n : Nat} (S : SAll h c0 n) {a : Sys}
       · rw [hxi]; exact hq0
 
 /-- an acknowledgement of a node that is around carries a term the node has reached -/
-theorem ack_term_le (H : Hyp2 cfg c0 h) {n : Nat} {a : Sys} (ha : h[n]? = some a) {v : Nat}
+theorem ack_term_le (H : Hyp2w cfg c0 h) {n : Nat} {a : Sys} (ha : h[n]? = some a) {v : Nat}
     {st : NState} (hv : a.node v = some st) {x : Message} (hx : x ∈ a.net ∨ x ∈ st.raft.msgs)
     (hack : isAck x) (hfrm : x.frm = v) (hidx : x.index ≠ 0) : x.term ≤ st.raft.term := by
   obtain ⟨hq, hn⟩ := ack_inv H n a ha
@@ -458,12 +458,12 @@ theorem ack_term_le (H : Hyp2 cfg c0 h) {n : Nat} {a : Sys} (ha : h[n]? = some a
   · exact ((hn x c hack hidx).1 st (by rw [hfrm]; exact hv)).1
   · exact (hq v st hv x c hack hidx).2.1
 
-theorem a2m_step (H : Hyp3 cfg c0 h) {n : Nat} (S : SAll h c0 n) {a b : Sys}
+theorem a2m_step (H : Hyp3a cfg c0 h) {n : Nat} (S : SAll h c0 n) {a b : Sys}
     (ha : h[n]? = some a) (hb : h[n + 1]? = some b) :
     ∀ v st', b.node v = some st' → ∀ x, (x ∈ b.net ∨ x ∈ st'.raft.msgs) → isAck x → x.frm = v →
       c0 < x.index → x.term = st'.raft.term → Promise h c0 (n + 1) x (FL h c0 st') := by
   intro v st' hvb x hx hack hfrm hidx hterm
-  have H2 := H.toHyp2
+  have H2 := H.toHyp2w
   have Sa := S n a (Nat.le_refl _) ha
   have hx0 : x.index ≠ 0 := by omega
   obtain ⟨k, stk, stk', hka, hkb, hoth, hs⟩ := H2.stp ha hb
